@@ -79,7 +79,9 @@ def run_case(case):
         seq = onp.concatenate([-onp.ones(pad, onp.int32), sel.astype(onp.int32)])
         tsent = onp.concatenate([onp.zeros(pad), ts_sent[sel]]).astype(onp.float32)
         data = onp.concatenate([onp.broadcast_to(default, (pad,) + tuple(shape)), data_all[sel]]).astype(dtype)
-        return seq, tsent, onp.zeros(cum, onp.float32), data, arrived
+        # receive stamps as the compiled runtime provides them: arrival under the minimal delay for real messages, 0 for dummies
+        trecv = onp.concatenate([onp.zeros(pad), ts_sent[sel] + dmin]).astype(onp.float32)
+        return seq, tsent, trecv, data, arrived
 
     def reference(t_eval, d, arrived, n_dummy):
         """float64 signal in the send-time domain through all ARRIVED stream messages (+ dummies if the window is not full)."""
